@@ -342,6 +342,18 @@ def _subst_calls(e, val):
     return out
 
 
+def _subst_ids(e, callret):
+    """copy of e with every call whose value an inlined helper returned replaced by that value"""
+    if not isinstance(e, dict):
+        return e
+    if e.get('op') == 'call' and isinstance(callret.get(e.get('id')), int):
+        return {'op': 'lit', 'c': callret[e['id']], 't': e.get('t', 'i32')}
+    out = dict(e)
+    if 'k' in e:
+        out['k'] = [_subst_ids(k, callret) for k in e['k']]
+    return out
+
+
 def trace_calls(P, fn, env0, max_steps=20000, _depth=0, assume_calls=None, partial=False, _retbox=None, sym_out=None, on_store=None, on_event=None, no_inline=()):
     """Finite-domain evaluation of the control skeleton of fn for ONE element of
     the finite input domain (env0 binds the enumerated parameters, e.g. a
@@ -480,6 +492,21 @@ def trace_calls(P, fn, env0, max_steps=20000, _depth=0, assume_calls=None, parti
                                 sub_env[g.params[i_]['name']] = fd.ev(fn, strip_casts(a), env)
                             except (Top, ZeroDivisionError, KeyError):
                                 pass
+                    # fields of an object handed on by pointer are visible to a helper that only reads them
+                    for i_, a in enumerate(ev.args):
+                        a0_ = strip_casts(a)
+                        if i_ < len(g.params) and a0_.get('op') == 'ref' and isinstance(a0_.get('name'), str):
+                            pn_ = g.params[i_]['name']
+                            writes_ = False
+                            for sv_ in g.stores():
+                                pth_ = g.path(strip_casts(sv_.store_parts()[0]))
+                                if pth_ is not None and len(pth_.t) > 2 and pth_.t[1] == pn_:
+                                    writes_ = True
+                            if not writes_:
+                                pre_ = a0_['name'] + '.'
+                                for k_, v_ in list(env.items()):
+                                    if isinstance(k_, str) and k_.startswith(pre_):
+                                        sub_env[pn_ + '.' + k_[len(pre_):]] = v_
                     box = []
                     out.extend(trace_calls(P, g, sub_env, max_steps, _depth + 1, assume_calls, False, box))
                     if box:
@@ -512,11 +539,16 @@ def trace_calls(P, fn, env0, max_steps=20000, _depth=0, assume_calls=None, parti
                 for k_, v_ in sym.items():
                     if v_[0] == 'addr' and k_ not in env:
                         env[k_] = 0x70000000      # the address of an object: not NULL
-                c = fd.ev(fn, b.cond, env)      # Top propagates: the skeleton is not decidable for this input
+                try:
+                    c = fd.ev(fn, b.cond, env)      # Top propagates: the skeleton is not decidable for this input
+                except Top:
+                    if not callret:
+                        raise
+                    c = fd.ev(fn, _subst_ids(b.cond, callret), env)
             except Top:
                 if assume_calls is None:
                     raise
-                c = fd.ev(fn, _subst_calls(b.cond, assume_calls), env)
+                c = fd.ev(fn, _subst_calls(_subst_ids(b.cond, callret), assume_calls), env)
         except Top:
             import os
             if os.environ.get('JLS_TRACE_DEBUG'):
